@@ -112,7 +112,8 @@ class Tr:
             if isinstance(t, ast.Name):
                 v = s.value
                 if (isinstance(v, ast.Call) and _fname(v.func) == "array" and len(v.args) == 1
-                        and ast.unparse(v).endswith("dtype='f8', ndmin=1, copy=True)")):
+                        and (ast.unparse(v).endswith("dtype='f8', ndmin=1, copy=True)")
+                             or ast.unparse(v).endswith("ndmin=1, copy=True, dtype=dtype)"))):
                     return self.let(t.id, self.e(v.args[0]))           # a copy
                 return self.let(t.id, self.e(v))
             if isinstance(t, ast.Tuple) and all(isinstance(x, ast.Name) for x in t.elts):
@@ -302,6 +303,89 @@ def translate(repo):
                 "  if (dorot || gen_polar dec)%bool then gen_randcap_rot ra dec rad u upsi else gen_randcap_unrot ra dec rad u upsi.")
     lemmas.append(("forall dorot ra dec rad u upsi, gen_randcap dorot ra dec rad u upsi = randcap_R dorot ra dec rad u upsi",
                    "intros; reflexivity."))
+    # ------------------------------------------------------------------ _thetaphi2xyz, eq2xyz (defaults units='deg', stomp=False)
+    f = _func(tree, "_thetaphi2xyz")
+    if [a.arg for a in f.args.args] != ["theta", "phi"]:
+        raise Untranslatable("_thetaphi2xyz signature")
+    b = _nodoc(f)
+    t = Tr([])
+    lets = t.body(b[:-1])
+    defs.append("Definition gen_thetaphi2xyz (theta phi : R) : vec3 :=\n%s\n  %s." % (lets, _ret(b[-1], 3)))
+    lemmas.append(("forall theta phi, gen_thetaphi2xyz theta phi = thetaphi2xyz theta phi", "intros; reflexivity."))
+    f = _func(tree, "eq2xyz")
+    if [a.arg for a in f.args.args] != ["ra", "dec", "dtype", "units", "stomp"] \
+            or [ast.unparse(d) for d in f.args.defaults] != ["'f8'", "'deg'", "False"]:
+        raise Untranslatable("eq2xyz signature / defaults")
+    b = _nodoc(f)
+    stm = []
+    for st in b[:-1]:
+        if isinstance(st, ast.If) and ast.unparse(st.test) == "units == 'deg'" and not st.orelse:
+            stm += st.body                                   # the default units are degrees: the branch is taken
+        elif isinstance(st, ast.If) and ast.unparse(st.test) == "stomp" and not st.orelse:
+            continue                                         # stomp defaults to False: not taken
+        else:
+            stm.append(st)
+    if ast.unparse(b[-1]) != "return _thetaphi2xyz(theta, phi)":
+        raise Untranslatable("eq2xyz: " + ast.unparse(b[-1]))
+    t = Tr([])
+    lets = t.body(stm)
+    defs.append("Definition gen_eq2xyz (ra dec : R) : vec3 :=\n%s\n  gen_thetaphi2xyz theta phi." % lets)
+    lemmas.append(("forall ra dec, gen_eq2xyz ra dec = eq2xyz ra dec", "intros; reflexivity."))
+    # randsphere(system='xyz'): the branch matched above is  x, y, z = eq2xyz(ra, dec); return x, y, z
+    defs.append("Definition gen_randsphere_xyz (ra0 ra1 dec0 dec1 u1 u2 : R) : vec3 :=\n"
+                "  let '(ra, dec) := gen_randsphere ra0 ra1 dec0 dec1 u1 u2 in gen_eq2xyz ra dec.")
+    lemmas.append(("forall ra0 ra1 dec0 dec1 u1 u2, gen_randsphere_xyz ra0 ra1 dec0 dec1 u1 u2 = randsphere_xyz_R ra0 ra1 dec0 dec1 u1 u2",
+                   "intros; reflexivity."))
+
+    # ------------------------------------------------------------------ atbound: the two while loops, on fuel
+    f = _func(tree, "atbound")
+    if [a.arg for a in f.args.args] != ["longitude", "minval", "maxval"]:
+        raise Untranslatable("atbound signature")
+    b = _nodoc(f)
+    if len(b) != 5 or ast.unparse(b[4]) != "return":
+        raise Untranslatable("atbound: structure")
+    loops = []
+    for k, (bound, val) in enumerate((("minval", "0"), ("maxval", "360"))):      # call site: atbound(x, 0.0, 360.0)
+        pre, wh = b[2 * k], b[2 * k + 1]
+        ok = (isinstance(pre, ast.Assign) and ast.unparse(pre.targets[0]) == "(w,)" and isinstance(pre.value, ast.Call)
+              and ast.unparse(pre.value.func) == "np.where" and len(pre.value.args) == 1 and isinstance(pre.value.args[0], ast.Compare)
+              and isinstance(wh, ast.While) and ast.unparse(wh.test) == "w.size > 0" and not wh.orelse and len(wh.body) == 2
+              and ast.unparse(wh.body[1]) == ast.unparse(pre) and isinstance(wh.body[0], ast.AugAssign)
+              and ast.unparse(wh.body[0].target) == "longitude[w]" and type(wh.body[0].op) in (ast.Add, ast.Sub))
+        if not ok:
+            raise Untranslatable("atbound: loop %d" % k)
+        cmp_ = pre.value.args[0]
+        if ast.unparse(cmp_.left) != "longitude" or len(cmp_.ops) != 1 or ast.unparse(cmp_.comparators[0]) != bound:
+            raise Untranslatable("atbound: loop condition " + ast.unparse(cmp_))
+        if isinstance(cmp_.ops[0], ast.Lt):
+            cond = "Rlt_dec lon %s" % val
+        elif isinstance(cmp_.ops[0], ast.Gt):
+            cond = "Rlt_dec %s lon" % val
+        else:
+            raise Untranslatable("atbound: comparison " + ast.unparse(cmp_))
+        step = "(lon %s %s)" % ("+" if isinstance(wh.body[0].op, ast.Add) else "-", _lit(ast.literal_eval(wh.body[0].value)))
+        loops.append("Fixpoint gen_atbound_loop%d (fuel : nat) (lon : R) : option R :=\n  if %s then match fuel with O => None | S f => "
+                     "gen_atbound_loop%d f %s end else Some lon." % (k, cond, k, step))
+    defs += loops
+    ind = "induction fuel as [|f IH]; intro lon; cbn; destruct (Rlt_dec _ _); try reflexivity; apply IH."
+    lemmas.append(("forall fuel lon, gen_atbound_loop0 fuel lon = up_loop fuel lon", ind))
+    lemmas.append(("forall fuel lon, gen_atbound_loop1 fuel lon = down_loop fuel lon", ind))
+
+    # ------------------------------------------------------------------ _check_range: which ranges are accepted
+    cmpnode = cr.body[0].orelse[1].test                       # rng[0] < allowed[0] or rng[1] > allowed[1]   (text matched above)
+    parts = []
+    for v_ in cmpnode.values:
+        l, op, r_ = ast.unparse(v_.left), v_.ops[0], ast.unparse(v_.comparators[0])
+        nm = {"rng[0]": "r0", "rng[1]": "r1", "allowed[0]": "a0", "allowed[1]": "a1"}
+        if l not in nm or r_ not in nm or type(op) not in (ast.Lt, ast.Gt):
+            raise Untranslatable("_check_range comparison")
+        parts.append("%s %s %s" % (nm[l], "<" if isinstance(op, ast.Lt) else ">", nm[r_]))
+    defs.append("Definition gen_range_rejected (r0 r1 a0 a1 : R) : Prop := %s." % " \\/ ".join(parts))
+    lemmas.append(("forall ra0 ra1 dec0 dec1, valid_box ra0 ra1 dec0 dec1 <-> "
+                   "(~ gen_range_rejected ra0 ra1 %s %s /\\ ~ gen_range_rejected dec0 dec1 %s %s /\\ ra0 <= ra1 /\\ dec0 <= dec1)"
+                   % (allowed["ra_range"][0], allowed["ra_range"][1], allowed["dec_range"][0], allowed["dec_range"][1]),
+                   "intros; unfold valid_box, gen_range_rejected; split; intro H; repeat split; try lra; "
+                   "destruct H as [H1 [H2 [H3 H4]]]; lra."))
     # constants of the module the chains refer to
     mod = {ast.unparse(n.targets[0]): ast.unparse(n.value) for n in tree.body if isinstance(n, ast.Assign) and len(n.targets) == 1}
     if mod.get("PI") != "math.pi":
@@ -400,22 +484,7 @@ def translate_interplin(tree):
             ("forall v x u, gen_interplin v x u = interplin v x u", "intros; reflexivity."))
 
 
-PINS = {
-    # ModelQ.gen_tables false: pcum = cumtrapz pofx x; norm = last; pcum/norm; xvals = tl x
-            # ModelQ.gen_sample: one uniform(size=n) call, interplin(xvals, pcum, urand)
-    ("esutil/random.py", "Generator", "_genrand_accum"):
-        "urand = self.rng.uniform(size=numrand)\nrand = stat.interplin(self.xvals, self.pcum, urand)\nreturn rand",
-    # ModelQ.chol_sample (Some mean)
-        # ModelQ.chol_sample means
-        # ModelLoops.up_loop / down_loop (and Model.atbound, C19_atbound_loops_terminate) for minval=0, maxval=360
-    ("esutil/coords.py", None, "atbound"):
-        "w, = np.where(longitude < minval)\nwhile w.size > 0:\n    longitude[w] += 360.0\n    w, = np.where(longitude < minval)\n"
-        "w, = np.where(longitude > maxval)\nwhile w.size > 0:\n    longitude[w] -= 360.0\n    w, = np.where(longitude > maxval)\nreturn",
-    # ModelQ.ri_accepts / Spec.ri_ok: choice(imax, size=nrand, replace=not unique)
-    ("esutil/random.py", None, "random_indices"):
-        "if rng is None:\n    rng = numpy.random.default_rng(seed)\nif not unique:\n    replace = True\nelse:\n    replace = False\n"
-        "return rng.choice(imax, size=nrand, replace=replace)",
-}
+PINS = {}      # round 6: nothing is pinned by text any more; every anchored statement is translated (fail closed)
 
 
 def check_pins(repo):
@@ -555,6 +624,55 @@ def _chol_body(stmts, mname, meanname, guard_mean):
     return "\n  ".join(lets) + "\n  " + ret
 
 
+def translate_accum_and_indices(tree):
+    out = []
+    # Generator._genrand_accum
+    b = _nodoc(_method(tree, "Generator", "_genrand_accum"))
+    u = [ast.unparse(st) for st in b]
+    if len(u) != 3 or u[0] != "urand = self.rng.uniform(size=numrand)" or u[2] != "return rand":
+        raise Untranslatable("_genrand_accum: " + repr(u))
+    st = b[1]
+    ok = (isinstance(st, ast.Assign) and ast.unparse(st.targets[0]) == "rand" and isinstance(st.value, ast.Call)
+          and ast.unparse(st.value.func) == "stat.interplin" and not st.value.keywords
+          and [ast.unparse(a) for a in st.value.args] == ["self.xvals", "self.pcum", "urand"])
+    if not ok:
+        raise Untranslatable("_genrand_accum: " + u[1])
+    # uniform(size=n): the n deviates `us`; interplin is vectorised over its third argument: mapM over the deviates
+    d = ("Definition genrand_accum_src (xvals pcum us : list Q) : result (list Q) :=\n  let urand := us in\n"
+         "  let rand := mapM (interplin xvals pcum) urand in\n  rand.")
+    out.append((d, ("forall xvals pcum us, genrand_accum_src xvals pcum us = genrand_accum xvals pcum us", "intros; reflexivity.")))
+    # random_indices
+    f = _method(tree, None, "random_indices")
+    if [a.arg for a in f.args.args] != ["imax", "nrand", "unique", "rng", "seed"] \
+            or [ast.unparse(x) for x in f.args.defaults] != ["True", "None", "None"]:
+        raise Untranslatable("random_indices signature / defaults")
+    b = _nodoc(f)
+    if len(b) != 3 or ast.unparse(b[0]) != "if rng is None:\n    rng = numpy.random.default_rng(seed)":
+        raise Untranslatable("random_indices: structure")
+    br = b[1]
+    ok = (isinstance(br, ast.If) and len(br.body) == 1 and len(br.orelse) == 1
+          and isinstance(br.body[0], ast.Assign) and ast.unparse(br.body[0].targets[0]) == "replace"
+          and isinstance(br.orelse[0], ast.Assign) and ast.unparse(br.orelse[0].targets[0]) == "replace"
+          and ast.unparse(br.body[0].value) in ("True", "False") and ast.unparse(br.orelse[0].value) in ("True", "False"))
+    if not ok:
+        raise Untranslatable("random_indices: replace branch")
+    tst = ast.unparse(br.test)
+    if tst == "not unique":
+        cond = "negb unique"
+    elif tst == "unique":
+        cond = "unique"
+    else:
+        raise Untranslatable("random_indices: test " + tst)
+    low = lambda n_: ast.unparse(n_).lower()      # noqa
+    if ast.unparse(b[2]) != "return rng.choice(imax, size=nrand, replace=replace)":
+        raise Untranslatable("random_indices: " + ast.unparse(b[2]))
+    d = ("Definition ri_accepts_src (imax nrand : Z) (unique : bool) : bool :=\n  let replace := if %s then %s else %s in\n"
+         "  choice_accepts imax nrand replace." % (cond, low(br.body[0].value), low(br.orelse[0].value)))
+    out.append((d, ("forall imax nrand unique, ri_accepts_src imax nrand unique = ri_accepts imax nrand unique",
+                    "intros imax nrand unique; destruct unique; reflexivity.")))
+    return out
+
+
 def translate_chol(tree):
     out = []
     for name, cls, fn, mname, meanname, guard in (("chol_sample_src_func", None, "cholesky_sample", "M", "means", True),
@@ -575,13 +693,13 @@ def translate_q(repo):
     d, l = translate_interplin(tree)
     defs, lems = [d], [l]
     rtree = ast.parse(open(os.path.join(repo, "esutil", "random.py")).read())
-    for dd, ll in translate_tables(rtree) + translate_chol(rtree):
+    for dd, ll in translate_tables(rtree) + translate_chol(rtree) + translate_accum_and_indices(rtree):
         defs.append(dd)
         lems.append(ll)
     return "\n\n".join(defs) + "\n", lems
 
 
-PRE = ("From Coq Require Import Reals.\nFrom EsVerif.C19 Require Import Model Spec.\nOpen Scope R_scope.\n")
+PRE = ("From Coq Require Import Reals Lra.\nFrom EsVerif.C19 Require Import Model ModelLoops Spec.\nOpen Scope R_scope.\n")
 
 
 if __name__ == "__main__":
